@@ -89,15 +89,25 @@ def qualifier(inv, case, rec):
             defined = [(x.get('loc'), x.get('tag'), x.get('dur')) for x in sh.get('recharge', {}).get('stations', [])]
             if used and set(used) <= set(defined) and any(used.count(x) > defined.count(x) for x in set(used)):
                 return 'one-recharge-station-of-the-shift-used-twice'
-    if inv == 'PartitionJobs' and case.get('problem', {}).get('plan', {}).get('relations'):
+    if inv == 'PartitionJobs' and case.get('problem', {}).get('plan', {}).get('relations') and not case.get('init'):
         served = {a['jix'] for t in rec.get('tours', []) for a in t['flat'] if a.get('jix', 0) > 0}
         listed = {u['jix'] for u in rec.get('unassigned', [])}
         lost = [j for j in range(1, len(rec.get('jobs', [])) + 1) if j not in served and j not in listed]
         if lost and not (served & listed):
             return 'relation-problem-job-neither-served-nor-unassigned'
-    if inv == 'Reach' and case.get('construction_only'):
-        # no generation ran: the returned solution was built by insertions alone (no removal that could close a gap over an
-        # unreachable pair), every leg of it was evaluated
+        named = {x['jix'] for r in rec.get('relations', []) for x in r['jobs'] if x.get('jix', 0) > 0}
+        if lost and (served & listed) and (served & listed) <= named:
+            return 'relation-job-served-and-unassigned-another-job-lost'
+    if inv == 'RechargeDistance':
+        # the over-long stretch ends at a stop that holds two recharge activities in a row
+        for t in rec.get('tours', []):
+            for st in t.get('stops', []):
+                if sum(1 for a in st['acts'] if a['type'] == 'recharge') >= 2:
+                    return 'stretch-ending-at-two-recharge-activities-in-a-row'
+    if inv == 'Reach' and case.get('construction_only') and not any(f in case.get('features', []) for f in ('reloads', 'resources', 'recharge', 'breaks')):
+        # no generation ran and the problem has no conditional jobs: the returned solution was built by insertions alone (no removal
+        # that could close a gap over an unreachable pair - an obsolete reload marker or a misplaced break is taken out even during
+        # construction), every leg of it was evaluated
         return 'construction-only'
     if inv == 'Reach':
         return 'pairwise-unreachable' if case.get('unreach_mode') == 'pairwise' else 'location-unreachable'
@@ -116,9 +126,9 @@ def qualifier(inv, case, rec):
         if idle and all(all(a['type'] in ('departure', 'arrival') for a in t['flat']) for t in idle) and any(f in case.get('features', []) for f in ('reloads', 'resources')):
             return 'empty-tour-in-reload-problem'
         # a recharge stop kept alive by a break that was attached to it (neither is a customer job)
-        if idle and all(any(a['type'] == 'recharge' for a in t['flat']) and any(a['type'] == 'break' for a in t['flat'])
+        if idle and all(any(a['type'] == 'recharge' for a in t['flat'])
                         and all(a['type'] in ('departure', 'arrival', 'break', 'recharge') for a in t['flat']) for t in idle):
-            return 'recharge-and-break-only-tour'
+            return 'recharge-only-tour'
     return 'general'
 
 
@@ -196,7 +206,8 @@ def add_recharge(case, rnd):
                 st = []
                 for k in range(rnd.choice([1, 1, 2, 3])):
                     x = {'location': {'index': rnd.randrange(n)}, 'duration': float(rnd.choice([0, 10, 20]))}
-                    if rnd.random() < 0.4: x['tag'] = 'rc%d' % k
+                    # two stations of a shift at one location are told apart by their tags only (as places of a task are)
+                    if rnd.random() < 0.4 or any(y['location'] == x['location'] for y in st): x['tag'] = 'rc%d' % k
                     if rnd.random() < 0.2:
                         a = rnd.randrange(0, horizon, 10)
                         x['times'] = [[pgen.ts(a), pgen.ts(a + rnd.choice([200, 600, 1500]))]]
@@ -292,8 +303,9 @@ def accounting_qualifier(inv, case, rec):
         listed = collections.Counter(u['job'] for u in rec['unassigned'])
         lost = [j['id'] for j in rec['jobs'] if not served[j['id']] and not listed[j['id']]]
         both = [j['id'] for j in rec['jobs'] if served[j['id']] and listed[j['id']]]
-        if lost and both:
-            return 'relation-job-served-and-unassigned-neighbours-lost'
+        twice = [j['id'] for j in rec['jobs'] if served[j['id']] > len(j['kinds'])]
+        if lost and (both or twice):
+            return 'relation-problem-jobs-lost'
     return 'general'
 
 
@@ -440,6 +452,29 @@ def run(pid, tier):
             ic['init'] = o['solution']
             ic['config']['termination'] = {'maxGenerations': rnd.choice([0, 1, 3]) or 1, 'maxTime': 30}
             init_cases.append(ic)
+    # ... and relation problems started from their own solution with one relation job taken out of its tour and listed as unassigned
+    # (re-optimisation after an order was bound to a vehicle: the job is named by a lock but is in none of the initial tours)
+    for rc in rel_cases:
+        o = rel_out.get(rc['id'])
+        if not o or o['status'] != 'ok' or rnd.random() > 0.5:
+            continue
+        named = [j for r in rc['problem']['plan'].get('relations', []) if r['type'] == 'any' for j in r['jobs']]
+        sol = copy.deepcopy(o['solution'])
+        served = [a['jobId'] for t in sol['tours'] for st in t['stops'] for a in st['activities'] if a['jobId'] in named]
+        if not served:
+            continue
+        victim = rnd.choice(served)
+        for t in sol['tours']:
+            for st in t['stops']:
+                st['activities'] = [a for a in st['activities'] if a['jobId'] != victim]
+            t['stops'] = [st for st in t['stops'] if st['activities']]
+        sol['tours'] = [t for t in sol['tours'] if any(a['type'] not in ('departure', 'arrival') for st in t['stops'] for a in st['activities'])]
+        sol.setdefault('unassigned', []).append({'jobId': victim, 'reasons': [{'code': 'NO_REASON_FOUND', 'description': 'unknown'}]})
+        ic = copy.deepcopy(rc)
+        ic['id'] = rc['id'] + 'j'
+        ic['init'] = sol
+        ic['config']['termination'] = {'maxGenerations': rnd.choice([1, 3, 10]), 'maxTime': 30}
+        init_cases.append(ic)
     init_out = solve(pid + '-i', init_cases, jobs=10) if init_cases else {}
     # fourth pass: coordinate twins (no matrices: the reader approximates the routing data and reports it back)
     geo_cases = [to_coords(c, rnd) for c in cases if 'unreachable' not in c.get('features', []) and rnd.random() < 0.15]
